@@ -67,7 +67,14 @@ class LxmlEventHandler(XmlHandler):
         Returns:
             An instance of the class type representing the parsed content.
         """
+        ended: Any = None
         for event, element in context:
+            if ended is not None:
+                # The tail of an element is complete only when the next event
+                # arrives, it may continue in the next chunk of the source
+                self.end(ended)
+                ended = None
+
             if event == EventType.START:
                 self.parser.start(
                     self.clazz,
@@ -78,18 +85,25 @@ class LxmlEventHandler(XmlHandler):
                     element.nsmap,
                 )
             elif event == EventType.END:
-                self.parser.end(
-                    self.queue,
-                    self.objects,
-                    element.tag,
-                    element.text,
-                    element.tail,
-                )
-                element.clear()
+                ended = element
             elif event == EventType.START_NS:
                 prefix, uri = element
                 self.parser.register_namespace(ns_map, prefix or None, uri)
             else:
                 raise XmlHandlerError(f"Unhandled event: `{event}`.")
 
+        if ended is not None:
+            self.end(ended)
+
         return self.objects[-1][1] if self.objects else None
+
+    def end(self, element: Any) -> None:
+        """Push the end event of an element to the main parser."""
+        self.parser.end(
+            self.queue,
+            self.objects,
+            element.tag,
+            element.text,
+            element.tail,
+        )
+        element.clear()
